@@ -177,3 +177,33 @@ Fixpoint first_missing (expected : list str) (have : list str) (i : nat) : optio
   | [] => None
   | e :: r => if mem_str e have then first_missing r have (S i) else Some i
   end.
+
+(* ---- C11 ---- *)
+From V Require Import TextSpec.
+
+Definition item_bodies (i : item) : list (list tok) :=
+  match i with
+  | IRow r => map (fun c => rn_body (ce_run c)) (rw_cells r)
+  | IPara _ rs => map rn_body rs
+  | _ => []
+  end.
+Definition all_bodies (pd : pdoc) : list (list tok) :=
+  flat_map item_bodies (pd_items pd ++ concat (pd_header pd) ++ concat (pd_footer pd)).
+
+Fixpoint ev_prefix (p es : list ev) : option (list ev) :=
+  match p, es with
+  | [], _ => Some es
+  | x :: p', y :: es' => if ev_eqb x y then ev_prefix p' es' else None
+  | _ :: _, [] => None
+  end.
+
+(* 0: as the property states; 7: only with the documented deviations; 2: differs; 1: run not found *)
+Definition probe_class (bodies : list (list ev)) (tag text : str) (conv : bool) : nat :=
+  match first_some (fun es => ev_prefix (map EChar tag) es) bodies with
+  | None => 1
+  | Some rest =>
+    if conv then
+      if ev_list_eqb rest (spec_events true text) then 0
+      else if ev_list_eqb rest (spec_events false text) then 7 else 2
+    else if ev_list_eqb rest (map EChar text) then 0 else 2
+  end.
